@@ -302,6 +302,33 @@ func genAttest(g *hx.Gen, out *hx.Out) {
 		args := append([]string{kind, strconv.Itoa(algo), hx.Hex(tbs), hx.Hex(sig), keyS}, oracle(kind, keyS, tbs)...)
 		out.Case(id, "attest", args, safe(runAttest, args))
 	}
+	// moduli around the shortest one that can hold a full-length message for SHA-512 / SHA-384 / SHA-256
+	// (prefix + digest + 11 bytes): one byte too short, exactly long enough, one byte longer
+	for _, hb := range [][2]int{{7, 83}, {6, 67}, {5, 51}} {
+		h, tLen := hb[0], hb[1]
+		algo := map[int]int{5: 4, 6: 5, 7: 6}[h]
+		for _, k := range []int{tLen + 10, tLen + 11, tLen + 12, tLen - 11, tLen - 10, tLen + 9} {
+			key, err := rsa.GenerateKey(rand.Reader, 8*k)
+			if err != nil {
+				continue
+			}
+			keyS := fmt.Sprintf("rsa:%x:%d", key.N, key.E)
+			kk := (key.N.BitLen() + 7) / 8
+			tbs := g.Bytes(30)
+			d := digestOf(h, tbs)
+			for _, p := range [][]byte{prefixes1[h], noNull(prefixes1[h])} {
+				var sig []byte
+				if kk >= len(p)+len(d)+3 {
+					m := new(big.Int).SetBytes(canonEM(kk, p, d))
+					m.Mod(m, key.N)
+					sig = new(big.Int).Exp(m, key.D, key.N).FillBytes(make([]byte, kk))
+				} else {
+					sig = g.Bytes(kk)
+				}
+				emit("root", algo, tbs, sig, keyS)
+			}
+		}
+	}
 	budget := *hx.Count
 	for _, bits := range sizes {
 		key, err := rsa.GenerateKey(rand.Reader, bits)
